@@ -357,7 +357,9 @@ def run(prog: Program, rep: Report, tier: str):
                 loops = [e[1] for e in hp.events if e[0] == "loop" and e[2] == 1 and T.contains(e[1], lambda y: y == st)]
                 if tup and loops:
                     is_wrapped = T.contains(loops[0], lambda y: y == wrapped)
-                    if tup[0] == is_wrapped:
+                    bare = loops[0] == st or (T.is_call_to(loops[0], "builtins.filter") and loops[0][2][1:2] == (st,))
+                    # (a loop over the 1-tuple written in place is unrolled by the evaluator: then the first loop seen is the inner one)
+                    if (tup[0] and is_wrapped) or (not tup[0] and bare):
                         shape = False
             rep.check(shape, "R19.4", hf.qualname, hf.loc, "the pickle hook tells the (dict, slots) pair from a bare instance dict", "the pickle hook assumes the state is always the (dict, slots) pair: when no slot holds a value (a frozen dataclass without fields, dict=True) the default state is the instance __dict__ itself, iterating it yields attribute *names* and copy / pickle raise AttributeError: 'str' object has no attribute 'items'", detail="hook-state-shape")
     except AnalysisError:
